@@ -821,6 +821,33 @@ theorem checker_iflet_decided (sig : Sig) (cx : Cx) (hcx : CxOk sig cx) (hinh : 
   obtain ⟨n, u, h1, h2⟩ := checker_iflet_exact_src sig cx hcx hinh src t hwf
   exact ⟨u, isAdditionalPatternUseful_eq cx _ _ n u h1, h2⟩
 
+/-! ### Every hypothesis decided by computation (what a replayed case certifies)
+
+For a finite type table, `cxOkCheck`, `nodupCheck`, `rankCheck` and `swf` are executable; the driver
+prints them for every case (`hyp`, `inh`, `swf`).  When they are all true the verdict the driver
+prints for that case is exact, with no hypothesis left: -/
+theorem replayed_match_exact (defs : List Def) (rank : List Nat) (srcArms : List SPat) (t : Nat)
+    (hcx : cxOkCheck defs = true) (hnd : nodupCheck defs = true) (hrk : rankCheck defs rank = true)
+    (hwf : srcArms.all (fun p => swf (sigOfTable defs) true p t) = true) :
+    let sig := sigOfTable defs
+    let arms := srcArms.map (fun p => (normalize sig true p (some t)).pat)
+    ∃ res, incompleteCounterexample (cxOf defs) arms = some res ∧
+      (res = none ↔ ∀ v, hasTy sig v t = true → ∃ p ∈ srcArms, smatch sig p t v = true) ∧
+      (∀ d, res = some d → patTy sig d t = true ∧ (∃ v, hasTy sig v t = true ∧ pmatch d v = true) ∧
+        ∀ v, hasTy sig v t = true → pmatch d v = true → ∀ p ∈ srcArms, smatch sig p t v = false) :=
+  checker_match_decided (sigOfTable defs) (cxOf defs) (cxOk_of_check defs hcx) (sigNodup_of_check defs hnd)
+    (inhabited_of_rankCheck defs rank hrk) srcArms t (fun p hp => List.all_eq_true.mp hwf p hp)
+
+theorem replayed_iflet_exact (defs : List Def) (rank : List Nat) (src : SPat) (t : Nat)
+    (hcx : cxOkCheck defs = true) (hrk : rankCheck defs rank = true)
+    (hwf : swf (sigOfTable defs) false src t = true) :
+    let sig := sigOfTable defs
+    let p := (normalize sig false src (some t)).pat
+    ∃ u, isAdditionalPatternUseful (cxOf defs) [p] .wild = some u ∧
+      (u = false ↔ ∀ v, hasTy sig v t = true → smatch sig src t v = true) :=
+  checker_iflet_decided (sigOfTable defs) (cxOf defs) (cxOk_of_check defs hcx)
+    (inhabited_of_rankCheck defs rank hrk) src t hwf
+
 /-
 Full-strength statement without the side condition `okPats q` (no `nothing()` = `Or([])` inside the
 *tested* vector):
@@ -890,6 +917,7 @@ def defsEx : List Def :=
   [.prim, .enum 0 [(0, []), (1, [0])], .enum 1 [(0, []), (1, [0, 2])], .struct [(0, 1), (1, 2)]]
 
 example : rankCheck defsEx [0, 1, 1, 2] = true := by decide
+example : cxOkCheck defsEx = true ∧ nodupCheck defsEx = true := by decide
 example : Inhabited' (sigOfTable defsEx) := inhabited_of_rankCheck defsEx [0, 1, 1, 2] (by decide)
 -- an uninhabited recursive enum `class Inf(More(Inf))` has no certificate with these ranks
 example : rankCheck [.enum 0 [(0, [0])]] [0] = false := by decide
